@@ -187,9 +187,14 @@ def _form(name, salt, n):
 def declare_xn(fn, kw, name, salt=""):
     """Every documented way of turning a function into a node: `@xn(**kw)`, the call form `xn(f, **kw)`, both with only
     the non-default options spelled out, and bare `xn(f)` / `@xn` when there is nothing to say."""
-    from tawazi import Resource, xn
+    from tawazi import xn
+    from tawazi.config import cfg
 
-    short = {k: v for k, v in kw.items() if not (k in XN_DEFAULTS and v == XN_DEFAULTS[k]) and not (k == "resource" and v == Resource.thread)}
+    # what may be left unsaid depends on the PROCESS defaults (environment variables TAWAZI_DEFAULT_RESOURCE / TAWAZI_IS_SEQUENTIAL)
+    dflt = dict(XN_DEFAULTS, is_sequential=bool(cfg.TAWAZI_IS_SEQUENTIAL), resource=cfg.TAWAZI_DEFAULT_RESOURCE)
+    short = {k: v for k, v in kw.items() if not (k in dflt and v == dflt[k])}
+    if len(short) < len(kw):
+        DECL_FORMS["options_left_to_process_defaults"] += 1
     form = _form(name, salt, 4)
     DECL_FORMS["xn_form_%d" % form] += 1
     if form == 0:
